@@ -226,6 +226,9 @@ impl Ics {
     fn setup_with(&self, h: &mut Hist, single_channel: bool, fixed: Option<(Vec<(usize, Option<u64>)>, Option<u64>)>, two_colliding: Option<bool>) -> Option<World> {
         let pl = pool();
         let mut c = Chain::new(h.rng.range(10, 5000), h.rng.range(1_600_000_000, 1_800_000_000));
+        let jitter = h.rng.below(1_000_000_000);
+        let t0 = c.time_ns();
+        c.set_time_ns(t0 + jitter, 0);
         let owner = c.owner.to_string();
         let users: Vec<String> = pl.actors[..3].to_vec();
         let bals: Vec<(String, u128)> = users.iter().map(|u| (u.clone(), 1u128 << 80)).collect();
